@@ -66,6 +66,20 @@ fn hoist_write_char(out: &mut Sink, c: char) -> (r: Result<()>)
     ensures wrote(old(out), final(out), r, encode_utf8(seq![c]))
 { use std::io::Write; match write!(out.w, "{}", c) { Ok(()) => Ok(()), Err(_) => Err(PdfError::Io) } }
 
+// Any other one-argument format string (fallback of the R7 hoists): what `write!(out, FMT, a)` prints is a function of the
+// format string and of the argument's value -- and nothing more is known about it (`fmt_spec` is uninterpreted), so a
+// format that is not one of the three above proves no spelling. Body: the format string of `write!` must be a literal, so
+// the hoisted expression `write!(out.w, <fmt>, a)` cannot be written generically; the helper is a pure env stub.
+pub trait FmtArg { spec fn repr(&self) -> int; }
+impl FmtArg for u8 { open spec fn repr(&self) -> int { *self as int } }
+impl FmtArg for char { open spec fn repr(&self) -> int { *self as int } }
+pub uninterp spec fn fmt_spec(fmt: Seq<char>, arg: int) -> Seq<u8>;
+#[verifier::external_body]
+fn hoist_write_fmt<T: FmtArg>(out: &mut Sink, fmt: &str, a: T) -> (r: Result<()>)
+    // trusted: formatting a u8 / char never fails by itself; the bytes handed to write_all depend on (fmt, a) only
+    ensures wrote(old(out), final(out), r, fmt_spec(fmt@, a.repr()))
+{ unimplemented!() /* write!(out.w, <fmt>, a) */ }
+
 #[verifier::external_body]
 fn hoist_write_all(out: &mut Sink, buf: &[u8]) -> (r: Result<()>)
     // trusted: io::Write::write_all appends the whole slice or returns Err
